@@ -27,6 +27,7 @@ int vf_w_fsel;
 
 /* caller-supplied hash functions: nondeterministic result, calls recorded */
 size_t vf_hash_ret, vf_hash_k, vf_hash_m;
+size_t vf_hash_ret1;                   /* answer of the CURRENT (old-geometry) function at its last consultation */
 size_t vf_hash_calls1, vf_hash_calls2;
 #ifdef VF_NATIVE
 #define nondet_size_t() 0
@@ -34,7 +35,7 @@ size_t vf_hash_calls1, vf_hash_calls2;
 size_t vf_hash_stub1(size_t k, size_t m)
 {
     size_t r = nondet_size_t();
-    vf_hash_calls1++; vf_hash_k = k; vf_hash_m = m; vf_hash_ret = r;
+    vf_hash_calls1++; vf_hash_k = k; vf_hash_m = m; vf_hash_ret = r; vf_hash_ret1 = r;
     return r;
 }
 size_t vf_hash_stub2(size_t k, size_t m)
@@ -150,11 +151,12 @@ REQUIRES(H_OBJ(h))
 #endif
 REQUIRES(count <= h->bucket.capacity)
 REQUIRES(hash == vf_hash_stub1 || hash == vf_hash_stub2)
-ASSIGNS(vf_hash_calls1, vf_hash_calls2, vf_hash_k, vf_hash_m, vf_hash_ret, vf_aborted)
+ASSIGNS(vf_hash_calls1, vf_hash_calls2, vf_hash_k, vf_hash_m, vf_hash_ret, vf_aborted; hash == vf_hash_stub1: vf_hash_ret1)
 ENSURES(hash == vf_hash_stub1 ==> (vf_hash_calls1 == OLD(vf_hash_calls1) + 1 && vf_hash_calls2 == OLD(vf_hash_calls2)))
 ENSURES(hash == vf_hash_stub2 ==> (vf_hash_calls2 == OLD(vf_hash_calls2) + 1 && vf_hash_calls1 == OLD(vf_hash_calls1)))
 ENSURES(vf_hash_k == k && vf_hash_m == count)
 ENSURES(vf_hash_ret < count && RESULT == &h->bucket.at[vf_hash_ret])
+ENSURES(hash == vf_hash_stub1 ==> vf_hash_ret1 == vf_hash_ret)
 ;
 
 /* Flat contract of cstl_clean_bucket: what the array-level functions may rely on.
@@ -242,7 +244,7 @@ REQUIRES(H_FLAT(h) && H_USES_STUBS(h))
 REQUIRES(vf_w_g < h->bucket.capacity && H_SWEEP(h, vf_w_g) && vf_dirty_cleaned == 0)
 ASSIGNS(h->bucket.rh.clean, h->bucket.count, h->bucket.hash, h->bucket.rh.hash,
         vf_dirty_cleaned, __CPROVER_object_whole(h->bucket.at),
-        vf_hash_calls1, vf_hash_calls2, vf_hash_k, vf_hash_m, vf_hash_ret, vf_aborted)
+        vf_hash_calls1, vf_hash_calls2, vf_hash_k, vf_hash_m, vf_hash_ret, vf_hash_ret1, vf_aborted)
 ENSURES(H_FLAT(h) && H_SWEEP(h, vf_w_g))
 /* at most three buckets have their contents relocated */
 ENSURES(vf_dirty_cleaned - OLD(vf_dirty_cleaned) <= 3)
@@ -261,6 +263,9 @@ ENSURES(H_IS_BUCKET(h, RESULT) && H_BUCKET_IDX(RESULT) < O_EFFN(h))
  * This is what makes an element inserted during a rehash findable by its key during and after it. */
 ENSURES(H_BUCKET_IDX(RESULT) == vf_hash_ret && vf_hash_k == k && vf_hash_m == O_EFFN(h))
 ENSURES(O_PEND(h) ==> (vf_hash_calls1 == OLD(vf_hash_calls1) + 1 && vf_hash_calls2 == OLD(vf_hash_calls2) + 1))
+/* ... and while a rehash is pending, the bucket the key selects under the OLD geometry has been
+ * relocated too (it is clean afterwards): an element still sitting at its old place cannot be missed */
+ENSURES((O_PEND(h) && vf_hash_ret1 == vf_w_g) ==> H_CLEAN_AT(h, vf_w_g))
 ENSURES((O_PEND(h) && H_BUCKET_IDX(RESULT) == vf_w_g) ==> H_BYTE(RESULT->cst) == H_BYTE(h->bucket.cst))
 ENSURES(h->bucket.capacity == OLD(h->bucket.capacity) && h->bucket.at == OLD(h->bucket.at) && h->count == OLD(h->count))
 ;
